@@ -21,7 +21,8 @@ def c34_consts(out):
     # WHEN: Boolean(b) => b, Null => false, anything else an error; NEW preferred over OLD as the base row
     need(re.search(r"SqlValue::Boolean\(b\) => Ok\(b\),\s*vibesql_types::SqlValue::Null => Ok\(false\)", src),
          "WHEN result conversion in evaluate_when_condition")
-    need(re.search(r"let row = new_row\.or\(old_row\)", src), "base row of WHEN = new_row.or(old_row)")
+    need(re.search(r"let row = new_row\.or\(old_row\)\.unwrap_or\(&empty_row\)", src),
+         "base row of WHEN = new_row.or(old_row), an empty row for statement-level triggers")
     need(re.search(r"filter\(\|trigger\| trigger\.timing == timing && trigger\.enabled\)", src), "find_triggers filter")
     # INSERT: validate all rows -> BEFORE STATEMENT -> (batch | per row: BEFORE, insert, AFTER + single-row undo) -> AFTER STATEMENT
     ins = read("crates/vibesql-executor/src/insert/execution.rs")
@@ -36,20 +37,35 @@ def c34_consts(out):
         r"execute_before_statement_triggers\(", r"select_rows\(", r"apply_assignments\(", r"validate_row\(",
         r"check_no_child_references\(", r"execute_before_triggers\(", r"update_row_selective\(", r"execute_after_triggers\(",
         r"update_indexes_for_update\(", r"execute_after_statement_triggers\("])
-    out.append("(* update/mod.rs: the event the UPDATE executor passes to find_triggers; 0 = Update(None) *)")
-    n_none = len(re.findall(r"TriggerEvent::Update\(None\)", upd))
-    n_any = len(re.findall(r"TriggerEvent::Update\(", upd))
-    if n_none != n_any or n_none == 0:
-        raise ExtractError("update/mod.rs no longer passes TriggerEvent::Update(None) everywhere")
-    out.append("Definition c34_update_event_is_update_none : bool := true.")
+    out.append("(* update/mod.rs: the event the UPDATE executor passes to find_triggers = Update(Some(assigned columns)) *)")
+    need(re.search(r"let update_event = vibesql_ast::TriggerEvent::Update\(Some\(\s*stmt\.assignments\.iter\(\)\.map\(\|a\| a\.column\.clone\(\)\)\.collect\(\),?\s*\)\);", upd),
+         "update_event = Update(Some(assigned columns)) in update/mod.rs")
+    if len(re.findall(r"update_event\.clone\(\)", upd)) != 4 or re.search(r"TriggerEvent::Update\(None\)", upd):
+        raise ExtractError("update/mod.rs no longer passes update_event to its four trigger firing calls")
+    out.append("Definition c34_update_event_is_assigned_columns : bool := true.")
     # DELETE: truncate fast path -> collect -> BEFORE STATEMENT -> all BEFORE ROW -> child references -> delete -> all AFTER ROW -> AFTER STATEMENT
     dele = read("crates/vibesql-executor/src/delete/executor.rs")
     _order(dele, "delete/executor.rs", [
         r"can_use_truncate\(", r"collect_rows_with_scan\(", r"execute_before_statement_triggers\(", r"execute_before_triggers\(",
         r"check_no_child_references\(database", r"delete_where\(", r"execute_after_triggers\(", r"execute_after_statement_triggers\("])
     cat = read("crates/vibesql-catalog/src/store/advanced/triggers.rs")
-    need(re.search(r"trigger\.table_name == table_name && event\.as_ref\(\)\.is_none_or\(\|e\| trigger\.event == \*e\)", cat),
-         "get_triggers_for_table compares the whole TriggerEvent")
+    # get_triggers_for_table: table name, then UPDATE events match by column overlap (a missing list on either side
+    # matches everything), every other event by equality
+    need(re.search(r"trigger\.table_name == table_name\s*&& event\.as_ref\(\)\.is_none_or\(\|e\| match \(&trigger\.event, e\) \{", cat),
+         "get_triggers_for_table filter")
+    need(re.search(r"\(vibesql_ast::TriggerEvent::Update\(None\), vibesql_ast::TriggerEvent::Update\(_\)\)\s*\| \(vibesql_ast::TriggerEvent::Update\(_\), vibesql_ast::TriggerEvent::Update\(None\)\) => true,", cat),
+         "UPDATE without a column list on either side matches")
+    need(re.search(r"=> monitored\.iter\(\)\.any\(\|m\| assigned\.iter\(\)\.any\(\|a\| a\.eq_ignore_ascii_case\(m\)\)\),\s*\(have, want\) => have == want,", cat),
+         "UPDATE OF columns match by overlap, other events by equality")
+    # bulk transfer: falls back when the destination has INSERT triggers; validates every row before the first insert;
+    # no append-mode shortcut in the primary-key check
+    bulk = read("crates/vibesql-executor/src/insert/bulk_transfer.rs")
+    _order(bulk, "insert/bulk_transfer.rs", [
+        r"get_triggers_for_table\(dest_table, Some\(vibesql_ast::TriggerEvent::Insert\)\)", r"check_schema_compatibility\(&dest_schema",
+        r"for row_values in &source_rows \{", r"enforce_primary_key_constraint\(", r"for row_values in source_rows \{", r"db\.insert_row\(dest_table"])
+    cons = read("crates/vibesql-executor/src/insert/constraints.rs")
+    if re.search(r"is_in_append_mode\(\)", cons):
+        raise ExtractError("insert/constraints.rs consults the append-mode tracker again")
 
 
 EXTRACTORS = [c34_consts]
